@@ -4,6 +4,9 @@ use vharness::*;
 fn subs_of(id: &str) -> Option<Vec<Sub>> {
     Some(match id {
         "C05" => checks::c05::SUBS.to_vec(),
+        "C06" => checks::builder::C06_SUBS.to_vec(),
+        "C12" => checks::builder::C12_SUBS.to_vec(),
+        "C13" => checks::builder::C13_SUBS.to_vec(),
         "C16" => checks::c16::all_subs(),
         "C01" => checks::c01::SUBS.to_vec(),
         "C02" => checks::c02::SUBS.to_vec(),
@@ -91,6 +94,18 @@ fn main() {
         "C16" => {
             checks::c16::run(&ctx);
             checks::c16::finish(&ctx)
+        }
+        "C06" => {
+            checks::builder::c06_run(&ctx);
+            checks::builder::c06_finish(&ctx)
+        }
+        "C12" => {
+            checks::builder::c12_run(&ctx);
+            checks::builder::c12_finish(&ctx)
+        }
+        "C13" => {
+            checks::builder::c13_run(&ctx);
+            checks::builder::c13_finish(&ctx)
         }
         _ => 2,
     };
